@@ -631,7 +631,7 @@ fn wiring(ctx: &Ctx, report: &mut Report) {
     use palette::{LinLuma, LinSrgb, SrgbLuma};
     let mut m = Monitor::new(
         mname,
-        "Rgb/Luma into_linear, from_linear, into_encoding, from_encoding (u8<->f32, f32<->f32, f64) equal the transfer function applied per component, alpha linear; distinct = sample index",
+        "Rgb/Luma into_linear, from_linear, into_encoding, from_encoding (u8<->f32, f32<->f32, f64) equal the transfer function applied per component, alpha linear; each of seven named standards decodes with the model curve of that standard as an RgbStandard and bit-identically as a LumaStandard; distinct = sample index",
     );
     let mut rng = ctx.rng(mname, 0);
     for i in 0..ctx.n(200_000, 5_000_000) {
@@ -677,6 +677,34 @@ fn wiring(ctx: &Ctx, report: &mut Report) {
                 }
             }};
         }
+        // which curve a *standard* is associated with (RgbStandard and LumaStandard name their transfer function
+        // separately): Rgb<S> against the model curve of the named standard, Luma<S> bit-identical to Rgb<S>
+        macro_rules! assoc {
+            ($S:ty, $name:expr, $tf:expr) => {{
+                let e: Rgb<$S, f32> = Rgb::new(c[0], c[0], c[0]);
+                let li = e.into_linear::<f32>();
+                let lu: palette::luma::Luma<$S, f32> = palette::luma::Luma::new(c[0]);
+                let ll = lu.into_linear::<f32>();
+                let lback: palette::luma::Luma<$S, f32> = palette::luma::Luma::from_linear(ll);
+                let rback: Rgb<$S, f32> = Rgb::from_linear(li);
+                let want = $tf.decode_signed(c[0] as f64);
+                m.evals(3);
+                if !((li.red as f64 - want).abs() <= 4e-6 * (1.0 + want.abs())) {
+                    m.violate($name, "rgb_standard_not_associated_with_its_curve", json!({"c": c[0]}), json!(li.red), json!(want), "");
+                }
+                if ll.luma.to_bits() != li.red.to_bits() || lback.luma.to_bits() != rback.red.to_bits() {
+                    m.violate($name, "luma_standard_uses_a_different_curve_than_rgb_standard", json!({"c": c[0]}), json!({"luma_into_linear": ll.luma, "luma_back": lback.luma}), json!({"rgb_into_linear": li.red, "rgb_back": rback.red}), "");
+                }
+            }};
+        }
+        use pvmon::refmodel::transfer::Tf as MTf;
+        assoc!(palette::encoding::Srgb, "assoc:Srgb", MTf::Srgb);
+        assoc!(palette::encoding::AdobeRgb, "assoc:AdobeRgb", MTf::Adobe);
+        assoc!(palette::encoding::Rec709, "assoc:Rec709", MTf::RecOetf);
+        assoc!(palette::encoding::Rec2020, "assoc:Rec2020", MTf::RecOetf);
+        assoc!(palette::encoding::DisplayP3, "assoc:DisplayP3", MTf::Srgb);
+        assoc!(palette::encoding::DciP3, "assoc:DciP3", MTf::P3Gamma);
+        assoc!(palette::encoding::ProPhotoRgb, "assoc:ProPhotoRgb", MTf::ProPhoto);
         std_check!(palette::encoding::Srgb, "Srgb");
         std_check!(palette::encoding::AdobeRgb, "AdobeRgb");
         std_check!(palette::encoding::Rec709, "Rec709");
